@@ -1381,6 +1381,135 @@ def run_alloc_faults(ctx, exe, env):
                        "failing_requests": sorted(set(x[0].k for x in lst))[:30]})
 
 
+# ----------------------------------------------------------------------------- vnacal family: fault, then the same call again
+CAL_FAULT_CALLS = [("add_calibration", 0, "new name, empty table"), ("add_calibration", 1, "new name, the table grows 1 -> 8"),
+                   ("add_calibration", 2, "existing name (replace)"), ("add_calibration", 3, "new name, a free slot"),
+                   ("solve", 0, "T8 2x2, five standards"), ("solve", 1, "E12 1x1, four standards"),
+                   ("save", 0, "two calibrations"), ("load", 0, "two calibrations"),
+                   ("make_scalar", 0, ""), ("make_vector", 0, ""), ("make_unknown", 0, ""),
+                   ("make_correlated", 0, "sigma frequencies"), ("make_correlated", 1, "one sigma value"),
+                   ("set_m_error", 0, "one value"), ("set_m_error", 1, "two frequencies (spline)"), ("set_m_error", 2, "NULL frequency vector"),
+                   ("property_set", 0, "calibration 0, new nested key"), ("property_set", 1, "global root, list element"),
+                   ("property_set", 2, "replace a value")]
+CAL_FAULT_NAMES = {"add_calibration": "vnacal_add_calibration", "solve": "vnacal_new_solve", "save": "vnacal_save", "load": "vnacal_load",
+                   "make_scalar": "vnacal_make_scalar_parameter", "make_vector": "vnacal_make_vector_parameter",
+                   "make_unknown": "vnacal_make_unknown_parameter", "make_correlated": "vnacal_make_correlated_parameter",
+                   "set_m_error": "vnacal_new_set_m_error", "property_set": "vnacal_property_set"}
+
+
+class CFCase(object):
+    def __init__(self, func, variant, label, k):
+        self.func, self.variant, self.label, self.k = func, variant, label, k
+        self.id = None
+
+    def line(self):
+        return "cf %s %s %d %d" % (self.id, self.func, self.variant, self.k)
+
+    def describe(self):
+        return {"function": CAL_FAULT_NAMES[self.func], "state": self.label, "failing_allocation_request": self.k,
+                "harness_line": self.line(), "how": "harness/err_calfault.c (linked with harness/allocwrap.c) run <tmp> with the line on stdin"}
+
+
+def run_cal_faults(ctx, exe, env):
+    """For every call of CAL_FAULT_CALLS: the fault-free history (k = 0: value returned, digest of the vnacal_t / vnacal_new_t /
+    file afterwards, number n of allocation requests of the library), then for request k = 1..n (sampled above the cap) the
+    call with that request failing FOLLOWED BY THE SAME CALL without a fault.  Judged: a call that fails under the fault returns
+    its failure value, ENOMEM, one VNAERR_SYSTEM report with that errno inside; the repeated call succeeds with the value of
+    the fault-free history and every getter (digest) answers as in that history; a call that succeeds in spite of the fault
+    ends where the fault-free history ends."""
+    rng = ctx.rng
+    runner = Runner(ctx, exe, env)
+    base = [CFCase(f, v, lab, 0) for f, v, lab in CAL_FAULT_CALLS]
+    res0 = runner.run(base)
+    cap = 14 if ctx.tier == "quick" else 60
+    faulted = []
+    sampled = 0
+    failures = []
+    for bcase in base:
+        r = res0.get(bcase.id, {})
+        bcase.res = r
+        ctx.count(None)
+        if "crash" in r or "n" not in r:
+            failures.append((bcase, "crash", "no allocation fails, yet the call did not return: %s" % (r.get("crash") or r), r))
+            continue
+        if r["ret"] in FAIL_RETS or int(r["cb"]) != 0:
+            failures.append((bcase, "base", "no allocation fails, yet the call fails / reports: ret=%s errno=%s msg=%s"
+                             % (r["ret"], r["errno"], r.get("msg")), r))
+            continue
+        n = int(r["n"])
+        ks = list(range(1, n + 1))
+        if n > cap:
+            keep = set(ks[:6] + ks[-4:])
+            keep.update(rng.sample(ks[6:-4], cap - 10))
+            ks = sorted(keep)
+            sampled += 1
+        for k in ks:
+            c = CFCase(bcase.func, bcase.variant, bcase.label, k)
+            c.base = bcase
+            faulted.append(c)
+    if sampled:
+        SKIPPED.append(("fault-then-retry rows of the vnacal family: %d calls make more than %d allocation requests" % (sampled, cap),
+                        "sampling: the first 6, the last 4 and %d random requests in between are failed; the thorough tier takes 60" % (cap - 10)))
+    ctx.log("vnacal family, fault then the same call again: %d calls, %d (call, failing request) rows" % (len(base), len(faulted)))
+    res = runner.run(faulted)
+    for c in faulted:
+        r = res.get(c.id, {"crash": {"error": "no result", "function": None}})
+        b0 = c.base.res
+        ctx.traces_validated += 1
+        if "crash" in r:
+            s = r["crash"]
+            ctx.count((c.func, c.variant, "crash"))
+            failures.append((c, "crash", "request %d fails: the call or its repetition did not return: %s in %s"
+                             % (c.k, s.get("error"), s.get("function")), r))
+            continue
+        injected = int(r["inj"]) > 0
+        failed = r["ret"] in FAIL_RETS
+        ctx.count((c.func, c.variant, failed) if injected else None)
+        probs = []
+        if not injected:
+            continue            # the call did not reach request k (an earlier exit): nothing was injected
+        if failed:
+            if r["errno"] != "ENOMEM":
+                probs.append(("errno", "errno %s, expected ENOMEM" % r["errno"]))
+            if c.func == "property_set":
+                # vnacal(3): the property functions set errno and return -1 "but don't invoke the error function"
+                if int(r["cb"]) != 0:
+                    probs.append(("callbacks", "a silent function called the error function %s time(s)" % r["cb"]))
+            elif int(r["cb"]) != 1 or r["cats"] != "0":
+                probs.append(("callbacks", "%s call(s) of the error function with categories %s, expected one VNAERR_SYSTEM report"
+                              % (r["cb"], r["cats"])))
+            elif r["ecb"] != r["errno"]:
+                probs.append(("errno-in-callback", "errno inside the error function %s, on return %s" % (r["ecb"], r["errno"])))
+            if int(r["nl"]) != 0:
+                probs.append(("multi-line", "message contains a newline"))
+            # the same call again, no fault
+            if r["rret"] != b0["ret"] or int(r["rcb"]) != 0:
+                probs.append(("retry", "the same call repeated without the fault does not do what it does in the fault-free history: "
+                              "ret=%s errno=%s, %s report(s) (%s); fault-free: ret=%s" % (r["rret"], r["rerrno"], r["rcb"], r.get("rmsg"), b0["ret"])))
+            elif r["dr"] != b0["d1"]:
+                probs.append(("retry-state", "after the repeated call the getters do not answer as in the fault-free history "
+                              "(digest %s, fault-free %s)" % (r["dr"], b0["d1"])))
+        else:
+            if int(r["cb"]) != 0:
+                probs.append(("callback-on-success", "the call reports success but called the error function %s time(s)" % r["cb"]))
+            if r["ret"] != b0["ret"] or r["d1"] != b0["d1"]:
+                probs.append(("tolerated-fault-state", "the call succeeds in spite of the failed request but ends elsewhere than the "
+                              "fault-free history: ret=%s digest %s, fault-free ret=%s digest %s" % (r["ret"], r["d1"], b0["ret"], b0["d1"])))
+        for key, text in probs:
+            failures.append((c, key, "request %d of %s fails: %s" % (c.k, b0.get("n"), text), r))
+    ctx.obligation("catalogue:vnacal-fault-then-retry", not failures,
+                   "; ".join("%s [%s]: %s" % (CAL_FAULT_NAMES[c.func], c.label, t) for c, k, t, r in failures[:3])[:600])
+    seen = set()
+    for c, key, text, r in failures:
+        sig = (c.func, c.variant, key)
+        if sig in seen:
+            continue
+        seen.add(sig)
+        ctx.violation({"kind": "usable_after_allocation_failure", "function": CAL_FAULT_NAMES[c.func], "problem": key},
+                      "%s [%s]: %s" % (CAL_FAULT_NAMES[c.func], c.label, text),
+                      dict(c.describe(), library=r.get("raw", str(r))[:900], fault_free=getattr(c, "base", c).res.get("raw", "")[:600]))
+
+
 # ----------------------------------------------------------------------------- histories
 # Theorems data_history_refusals_erasable / new_history_refusals_erasable (Properties_C11.v): the calls an argument check
 # refuses can be deleted from any history.  Tie: random histories of calls on ONE vnadata_t are run by the extracted
